@@ -38,9 +38,16 @@ type world struct {
 	cur     *fakeSource
 
 	// scripted faults
-	openFail  int    // next n source Opens fail
-	dstTdFail string // "", "T", "F": next destination Teardown returns this error kind
-	storeFail int    // next n pipeline-store Sets fail
+	openFail       int           // next n source Opens fail
+	dstTdFail      string        // "", "T", "F": next destination Teardown returns this error kind
+	holdRun        chan struct{} // non-nil: the next UpdateStatus(Running) is delayed (slow status store) until closed
+	runParked      bool          // … and a call is parked there
+	writesInFlight int           // UpdateStatus calls entered and not yet returned
+	failFirst      string        // "", "T", "F": the next source that opens fails on its first Read
+	hold           bool          // the destination withholds its acks (the drain cannot finish)
+	holdCh         chan struct{} // closed by release / releaseerr
+	holdErr        bool          // the withheld acks carry an error (the records are nacked)
+	storeFail      int           // next n pipeline-store Sets fail
 
 	nrec int // records a source emits per run
 
@@ -303,6 +310,11 @@ func (s *fakeSource) Open(_ context.Context, r pconnector.SourceOpenRequest) (pc
 	s.w.srcOpen++
 	s.w.cur = s
 	s.w.evLocked("O:" + strconv.Itoa(pos))
+	if k := s.w.failFirst; k != "" {
+		s.w.failFirst = ""
+		s.w.evLocked("I:" + k)
+		s.fail <- k
+	}
 	return pconnector.SourceOpenResponse{}, nil
 }
 
@@ -432,6 +444,26 @@ func (d *fakeDest) Run(ctx context.Context, stream pconnector.DestinationRunStre
 				}
 				acks[i] = pconnector.DestinationRunResponseAck{Position: r.Position}
 			}
+			if !strings.HasSuffix(d.id, "-dlq") {
+				d.w.mu.Lock()
+				hold, ch := d.w.hold, d.w.holdCh
+				d.w.mu.Unlock()
+				if hold {
+					select {
+					case <-ch:
+					case <-ctx.Done():
+						return
+					}
+					d.w.mu.Lock()
+					bad := d.w.holdErr
+					d.w.mu.Unlock()
+					if bad {
+						for i := range acks {
+							acks[i].Error = "verif: injected write failure"
+						}
+					}
+				}
+			}
 			if err := srv.Send(pconnector.DestinationRunResponse{Acks: acks}); err != nil {
 				return
 			}
@@ -506,7 +538,34 @@ func (r recPipelines) List(ctx context.Context) map[string]*pipeline.Instance {
 }
 func (r recPipelines) UpdateStatus(ctx context.Context, id string, st pipeline.Status, msg string) error {
 	// the in-memory status changes somewhere inside the call: bracket it
-	r.w.ev("Sb:" + statusName(st))
+	r.w.mu.Lock()
+	r.w.writesInFlight++
+	r.w.evLocked("Sb:" + statusName(st))
+	r.w.mu.Unlock()
+	defer func() {
+		r.w.mu.Lock()
+		r.w.writesInFlight--
+		r.w.mu.Unlock()
+	}()
+	if st == pipeline.StatusRunning {
+		r.w.mu.Lock()
+		ch := r.w.holdRun
+		r.w.holdRun = nil // one-shot
+		if ch != nil {
+			r.w.runParked = true
+		}
+		r.w.mu.Unlock()
+		if ch != nil {
+			select {
+			case <-ch:
+			case <-time.After(10 * time.Second):
+			}
+			r.w.mu.Lock()
+			r.w.runParked = false
+			r.w.evLocked("G:holdrun")
+			r.w.mu.Unlock()
+		}
+	}
 	err := r.inner.UpdateStatus(ctx, id, st, msg)
 	res := "ok"
 	if err != nil {
